@@ -242,7 +242,8 @@ def _install_wrappers():
         r = orig_mcall(self, market_book)
         run = CUR
         if run is not None:
-            run.held[self.market_id] = run.index_of(self.market_id, market_book.publish_time_epoch, holding=True)
+            f = getattr(run, "index_of", None)  # World B runs (LiveRun) share this class-level wrapper and keep no arrival index
+            run.held[self.market_id] = f(self.market_id, market_book.publish_time_epoch, holding=True) if f else run.pt_index.get(self.market_id, {}).get(market_book.publish_time_epoch)
         return r
 
     Market.__call__ = market_call
@@ -623,6 +624,15 @@ def make_agent_class():
                 )
                 trades.append(trade)
             typ = a.get("type", "LIMIT")
+            if a.get("probe") and typ == "LIMIT" and not a.get("line") and not a.get("betdaq"):
+                # boundary-seeking order: sized at run time so that the decision falls just outside / inside the limit
+                for mon in run.monitors:
+                    f = getattr(mon, "boundary_size", None)
+                    if f is not None:
+                        sz = f(market, self, sel, side, a["price"], a["probe"])
+                        if sz is not None:
+                            a = dict(a, size=sz)
+                        break
             if a.get("betdaq"):
                 from flumine.order.ordertype import BetdaqLimitOrder
 
@@ -1093,4 +1103,13 @@ class ScriptMiddleware:
 
 
 def run_scenario(scenario, monitor_classes, owner=None) -> core.Result:
-    return BacktestRun(scenario, monitor_classes, owner=owner).execute()
+    from . import rt
+
+    rt.set_tz(scenario.get("tz"))
+    try:
+        res = BacktestRun(scenario, monitor_classes, owner=owner).execute()
+    finally:
+        rt.set_tz(None)
+    if scenario.get("tz"):
+        res.faults["host.time_zone_not_utc"] += 1
+    return res
